@@ -91,16 +91,17 @@ func (e netErr) Temporary() bool { return false }
 
 // script of the protected handler for one attempt
 type attemptScript struct {
-	readHow  int  // 0 io.ReadAll / io.ReadFull, 1 io.Copy (uses the body's WriterTo if it has one), 2 small Read calls
-	readN    int  // bytes of the body to read; -1 = until EOF
-	mutate   bool // scribble over the request it was handed
-	status   int  // 0 = never calls WriteHeader
-	headers  http.Header
-	writes   []int // sizes of successive Write calls
-	setCL0   bool
-	grpcStat string
-	early    bool // 103 Early Hints before the final status
-	abort    bool // after its writes the handler aborts with panic(http.ErrAbortHandler), as a reverse proxy does when the backend breaks off
+	readHow   int  // 0 io.ReadAll / io.ReadFull, 1 io.Copy (uses the body's WriterTo if it has one), 2 small Read calls
+	readN     int  // bytes of the body to read; -1 = until EOF
+	mutate    bool // scribble over the request it was handed
+	status    int  // 0 = never calls WriteHeader
+	headers   http.Header
+	writes    []int // sizes of successive Write calls
+	setCL0    bool
+	grpcStat  string
+	early     bool // 103 Early Hints before the final status
+	closeBody bool // the handler closes the request body when done with it (http.Transport always does)
+	abort     bool // after its writes the handler aborts with panic(http.ErrAbortHandler), as a reverse proxy does when the backend breaks off
 }
 
 // what the handler saw on one invocation
@@ -184,6 +185,9 @@ func (ex *exchange) handler() http.Handler {
 			}
 		}
 		ex.seen = append(ex.seen, seen)
+		if sc.closeBody && req.Body != nil {
+			_ = req.Body.Close()
+		}
 		if sc.mutate {
 			req.Header.Set("X-Scribble", "attempt")
 			req.Header.Del("X-Multi")
